@@ -776,7 +776,7 @@ def _d_update_symbolic(eng, recv, args, kwargs):
     and the keys of `other` carry other's values (CPython: PyDict_Merge with override)"""
     if kwargs or recv.vkind == "intlist":
         raise Unsupported("update on a symbolic dict with keywords / list values")
-    I = z3.IntSort()
+    eng.assumptions.add("dict-model: d.update(other) keeps d's keys, adds other's keys, other's values win (cross-checked: tools/xcheck_c04_models.py)")
     for a in args:
         if isinstance(a, PDict) and a.items is None:
             if a.vkind == "intlist":
@@ -809,6 +809,7 @@ def _b_dict_fromkeys(eng, args, kwargs):
         return PDict({eng.hashable(k): value for k in keys})
     from . import npmodels
 
+    eng.assumptions.add("dict-model: dict.fromkeys(iterable, v) has exactly the iterable's elements as keys, each with the one value v (cross-checked: tools/xcheck_c04_models.py)")
     length, getter = as_sequence(eng, seq)
     if isinstance(seq, Iter):
         seq.consumed = True
